@@ -105,5 +105,5 @@ def run(ctx):
     from checks import wire_tier as wt
     n3, rej = wt.run_wire(ctx, select=lambda s: s["name"] in ("elastic-timeout-flag", "docker-timeout-flag"), label="c10t", focus="time")
     wt.report(ctx, "C10", rej)
-    n4, rej = wt.run_wire(ctx, select=lambda s: s["name"] in ("elastic-parallel", "docker-parallel", "elastic-redirect", "docker-redirect", "elastic-fd-limit", "docker-fd-limit"), label="c10p", focus="coverage")
+    n4, rej = wt.run_wire(ctx, select=lambda s: s["name"] in ("elastic-parallel", "docker-parallel", "elastic-redirect", "docker-redirect", "elastic-redirect-same-host", "docker-redirect-same-host", "elastic-fd-limit", "docker-fd-limit"), label="c10p", focus="coverage")
     wt.report(ctx, "C10", rej)
